@@ -672,8 +672,6 @@ func (p *pp) handleSpecialValues(value reflect.Value, t reflect.Type, verb rune,
 
 func (p *pp) printArg(arg interface{}, verb rune)
   public verb
-  -- registering the types of the Safe()/Unsafe() wrappers themselves with RegisterSafeType is outside the claim
-  assume [C05,C06,C08,C17] !safeTypeRegistry[safeWrapperType] && !safeTypeRegistry[unsafeWrapperType]
   ghost p.gdone = true before "p.printValue(f, verb, 0)"
   ghost p.gdone = true before "p.printValue(reflect.ValueOf(f), verb, 0)"
   ensures [C15] verb == 119 && !old(p.erroring) ==> (p.wrapErrs && !isnil(p.wrappedErr) && hasType(p.wrappedErr, "error") && old(p.wrapErrs) && isnil(old(p.wrappedErr))) || (!p.wrapErrs && isnil(p.wrappedErr))
